@@ -1,45 +1,73 @@
-"""C05 -- every simulation terminates, feasible work is always finished."""
+"""C05 -- every simulation terminates, and feasible work is always finished."""
 import sys
 
 from vlib import harness, simworld
+from vlib import worlds as w
+from vlib.simcheck import RT3, SIM_ASSUMPTIONS, SIM_OUTSIDE, small
 
 ID = "C05"
-ANCHORS = [("simulator.py", 1718, 1981), ("simulator.py", 1113, 1136), ("simulator.py", 467, 512), ("workload/tasks.py", 330, 337)]
-LIMITS = {"samples_per_job": 1, "validate_per_job": 1}
 ORACLES = ["C05"]
-
-
-def g_indep(n, **k):
-    return [dict({"name": f"G{i}", "tasks": [f"T{i}"], "edges": [], "release": "sym", "deadline": "sym"}, **k) for i in range(n)]
-
-
-def g_chain(n, **k):
-    ts = [f"T{i}" for i in range(n)]
-    return [dict({"name": "G0", "tasks": ts, "edges": [[ts[i], ts[i + 1]] for i in range(n - 1)], "release": "sym", "deadline": "sym"}, **k)]
+ANCHORS = [("simulator.py", 1718, 1981), ("simulator.py", 1113, 1136), ("simulator.py", 622, 723), ("simulator.py", 467, 512),
+           ("workload/tasks.py", 330, 337)]
+LIMITS = {"samples_per_job": 1, "validate_per_job": 1}
+CRASH_IS_VIOLATION = True  # a run that raises never reaches its end event
+ASSUMPTIONS = SIM_ASSUMPTIONS + ["loop budget per world = 40*(#tasks+2) clock steps (+14 per microsecond of bounded retry horizon); a path exceeding it is replayed concretely with the same budget and reported as non-termination only if it reproduces"]
+OUTSIDE = SIM_OUTSIDE + "; closed-loop release"
+BOUNDS = "1-3 tasks; zero-length tasks, equal-time releases, symbolic loop timeout, scheduler frequency / delay / run-at-worker-free, heterogeneous workers with 1-us placement retries, non-zero scheduler runtime"
+EXPLANATION = ("real Simulator.simulate() on all feasible paths with a step budget; oracles (z3): SIMULATOR_END handled, end <= loop_timeout; for work-conserving worlds "
+               "(EDF/FIFO/LSF, no enforcement, every task fits an empty worker) all tasks COMPLETED and end < timeout; at the end no RELEASED task fits a worker (own ledger) unless the timeout struck")
+REQUIRED_LABELS = ["C05:reaches-end-event", "C05:ends-by-timeout", "C05:feasible-work-completes", "C05:ends-before-timeout"]
+T2 = ("T0", "T1")
 
 
 def worlds(tier):
     ws = []
     for pol in ("EDF", "FIFO", "LSF"):
-        ws.append({"name": f"one-task-{pol}", "graphs": g_indep(1), "cluster": [[{"CPU": 1}]], "policy": pol, "work_conserving": True,
-                   "rt_lo": 0})
-        ws.append({"name": f"two-indep-1cpu-{pol}", "graphs": g_indep(2), "cluster": [[{"CPU": 1}]], "policy": pol, "work_conserving": True,
-                   "split": 6, "weight": 50, "rt_lo": 1})
-        ws.append({"name": f"chain2-{pol}", "graphs": g_chain(2), "cluster": [[{"CPU": 1}]], "policy": pol, "work_conserving": True,
-                   "split": 4, "weight": 10, "rt_lo": 1})
+        ws.append(w.W(f"two-indep-1cpu-{pol}", w.indep(2), w.C1, pol, work_conserving=True, split=6, weight=50))
+        ws.append(w.W(f"chain2-1cpu-{pol}", w.chain(2), w.C1, pol, work_conserving=True, split=4, weight=5))
+    ws += [
+        w.W("one-task-zero-runtime-EDF", w.indep(1), w.C1, "EDF", work_conserving=True, rt_lo=0),
+        w.W("two-indep-1cpu-EDF-symbolic-timeout", w.indep(2, deadline=10 ** 6), w.C1, "EDF", timeout="sym", split=7, weight=80),
+        w.W("two-indep-hetero-workers-symdemand-EDF", w.indep(2, release=0), w.HETERO, "EDF", split=6, retry_loops=True, work_conserving=True,
+            assume=["fits-somewhere"], tasks={t: {"strategies": [{"rt": RT3, "res": {"CPU": ["sym", 0, 3]}}]} for t in T2}, weight=10),
+        w.W("two-indep-1cpu-FIFO-frequency", w.indep(2, deadline=10 ** 6), w.C1, "FIFO", freq="sym", work_conserving=True, split=7, weight=80),
+        w.W("two-indep-1cpu-LSF-delay", w.indep(2, deadline=10 ** 6), w.C1, "LSF", delay="sym", work_conserving=True, split=7, weight=30),
+        w.W("chain2-1cpu-EDF-run_at_worker_free", w.chain(2), w.C1, "EDF", run_at_worker_free=True, work_conserving=True, split=4),
+        w.W("join3-2cpu-FIFO", w.fixed_times(w.join()), w.C2, "FIFO", work_conserving=True, split=6),
+        w.W("cond2-1cpu-EDF", w.fixed_times(w.cond2()), w.C1, "EDF", split=6, weight=30),
+        w.W("one-task-EDF-scheduler-runtime", w.indep(1), w.C1, "EDF", sched_runtime=["sym", 0, 5], work_conserving=True),
+        w.W("one-task-havoc-scheduler-runtime", w.indep(1, release=["sym", 0, 6], deadline=10 ** 6), w.C1, "HAVOC", sched_runtime=["sym", 0, 4],
+            havoc={"max_delta": 2, "max_unplaced": 0}, tasks=small(("T0",)), split=5),
+        w.W("two-indep-havoc-planahead", w.fixed_times(w.indep(2)), w.C1, "HAVOC", havoc={"max_delta": 2}, tasks=small(T2), split=6),
+        w.W("two-indep-1cpu-EDF-enforce-deadlines", w.indep(2), w.C1, "EDF", enforce_deadlines=True, split=6, weight=50),
+    ]
+    if tier == "thorough":
+        ws += [
+            w.W("three-indep-1cpu-EDF", w.indep(3, deadline=10 ** 6), w.C1, "EDF", work_conserving=True, split=9, weight=600),
+            w.W("two-indep-zero-runtime-FIFO", w.indep(2, deadline=10 ** 6), w.C1, "FIFO", work_conserving=True, rt_lo=0, split=6, weight=50),
+            w.W("two-indep-1cpu-EDF-freq+delay+timeout", w.indep(2, deadline=10 ** 6), w.C1, "EDF", freq="sym", delay="sym", timeout="sym", split=9, weight=600),
+            w.W("diamond-2cpu-LSF", w.fixed_times(w.diamond()), w.C2, "LSF", work_conserving=True, split=8, weight=100),
+            w.W("two-indep-havoc-scheduler-runtime", w.indep(2, release=["sym", 0, 4], deadline=10 ** 6), w.C1, "HAVOC", sched_runtime=["sym", 0, 3],
+                havoc={"max_delta": 2, "max_unplaced": 0, "future": False}, tasks=small(T2), split=8, weight=200),
+            w.W("three-indep-hetero-EDF", w.indep(3, release=0), w.HETERO, "EDF", split=9, retry_loops=True, work_conserving=True, assume=["fits-somewhere"],
+                tasks={t: {"strategies": [{"rt": RT3, "res": {"CPU": ["sym", 1, 2]}}]} for t in ("T0", "T1", "T2")}, weight=400),
+        ]
     return ws
 
 
-def run(env, w):
-    simworld.run(env, w, ORACLES)
+def run(env, world):
+    simworld.run(env, world, ORACLES)
 
 
 def signature(world, v, failures):
-    if v["label"] == "C05:terminates" and world.get("rt_lo", 1) == 0:
-        a = v["assignment"]
-        if any(k.startswith("rt_") and val == 0 for k, val in a.items()):
-            return "zero-runtime-task-never-finishes"
-    return v["label"]
+    lab, a, info = v["label"], v["assignment"], v.get("info") or ""
+    if lab == "C05:terminates" and any(k.startswith("rt_") and val == 0 for k, val in a.items()):
+        return "zero-runtime-task-never-finishes"
+    if lab == "crash:ValueError" and "occurred in the past" in info and world.get("policy") in ("EDF", "FIFO", "LSF") and world.get("sched_runtime", 0) != 0:
+        return "greedy-policy-placement-rejected-as-past-with-nonzero-scheduler-runtime"
+    if world.get("sched_runtime", 0) != 0 and lab in ("C05:no-runnable-work-left-at-end", "C05:feasible-work-completes"):
+        return "task-released-during-scheduler-run-is-never-offered-again"
+    return lab
 
 
 if __name__ == "__main__":
